@@ -60,7 +60,7 @@ class State:
         return State(self.env, self.rel, self.progress, self.lenof)
 
     def key(self):
-        return (tuple(sorted((k, repr(v)) for k, v in self.env.items())), self.rel, self.progress, tuple(sorted(self.lenof.items())))
+        return (tuple(sorted((str(k), repr(v)) for k, v in self.env.items())), self.rel, self.progress, tuple(sorted((str(a), str(b)) for a, b in self.lenof.items())))
 
     def kill(self, name):
         self.rel = frozenset(f for f in self.rel if name not in f[1:])
@@ -443,6 +443,11 @@ class SignInterp:
             return out
         if isinstance(n, ast.AugAssign):
             tname = n.target.id if isinstance(n.target, ast.Name) else None
+            if tname is None:
+                # `self.counter += 1`, `d[k] += v`: not a local of the abstract state - evaluate the right-hand side for its effects only
+                for _v, s in self.ev(n.value, st):
+                    out.normal.append(s)
+                return out
             for v, s in self.ev(n.value, st):
                 s = s.copy()
                 cur = s.env.get(tname, UNK)
